@@ -17,6 +17,8 @@ func Run(ctx *core.Ctx) {
 	ctx.Assumptions = append(ctx.Assumptions,
 		"oracle = SoyExpr.tla (written from the language definition + behaviour pinned by the repository's tests); cases the oracle marks Unspec are not judged",
 		"floats restricted to dyadic rationals with small numerators; integers to 32-bit safe range (TLC arithmetic)")
+	ReplayFamilies(ctx)
+	PositionFamily(ctx)
 	RandomTraces(ctx, ctx.Pick(4000, 60000))
 }
 
